@@ -1,4 +1,5 @@
 import html
+import itertools
 from collections import defaultdict
 from functools import cached_property
 
@@ -10,6 +11,8 @@ from genlm.grammar.linear import WeightedGraph
 
 # EPSILON = "ε"
 EPSILON = ""
+
+_byte_state_counter = itertools.count()
 
 
 class WFSA:
@@ -532,13 +535,10 @@ class WFSA:
         # when multiple characters emanating from the same state share a byte prefix.
         byte_wfsa = self.spawn(keep_init=True, keep_stop=True)
 
-        state_counter = 0
-
         def get_new_state():
-            nonlocal state_counter
-            state = f"_bytes{state_counter}"
-            state_counter += 1
-            return state
+            # unique across calls, so that several converted automata can be
+            # merged into one machine / grammar without their chain states clashing
+            return f"_bytes{next(_byte_state_counter)}"
 
         for i, a, j, w in self.arcs():
             if a == EPSILON:
